@@ -145,6 +145,26 @@ func Read(fd int, p []byte) (int, error) {
 	return unix.Read(fd, p)
 }
 
+// EpollWaitHook is EpollWait for any epoll_wait function: probe(msec) performs the system call.
+func EpollWaitHook(msec int, probe func(msec int) (int, error)) (int, error) {
+	t := me()
+	if t == nil {
+		return probe(msec)
+	}
+	Yield("epoll_wait")
+	for {
+		if me() == nil { // the scheduler was switched off: behave like the real call
+			return probe(msec)
+		}
+		n, err := probe(0)
+		if n != 0 || err != nil || msec == 0 {
+			return n, err
+		}
+		Events <- Event{Tid: t.id, Kind: "blocked", Site: "epoll_wait"}
+		<-t.grant
+	}
+}
+
 // EpollWait: a wait without timeout is performed as a sequence of non-blocking probes; a
 // probe that finds nothing reports the thread as blocked and parks it until the driver
 // grants it again (which it only does after another thread wrote the eventfd).
